@@ -71,6 +71,14 @@ func C17Selection() {
 			sigs += methodSig(m)
 		}
 		got = append(got, sigs)
+		for _, m := range info.Methods {
+			// the package comment is no method's doc comment - also not for a method the interface
+			// has by embedding an interface of a sibling file, whose own comments are out of sight
+			if m.Name() == "FromSibling" || m.Name() == "Bee" {
+				vrt.AssertMsg("package-comment-is-no-method-doc", m.DocComment == nil || len(m.DocComment.List) == 0, m.Name())
+				vrt.AssertMsg("package-comment-notations-reach-no-method", !m.Opts.ShouldSkip("ID") && !m.Opts.Typecast, m.Name())
+			}
+		}
 		vrt.Assert("marker-unique", !markers[info.Marker] && info.Marker != "")
 		markers[info.Marker] = true
 	}
